@@ -492,14 +492,22 @@ PROPS = {
     ),
     "C18": dict(
         thm=["Bgpfu.Thm.C18"],
-        ops=[("sched", ["only-drop"])],
+        ops=[("sched", ["only-drop"]), ("frame", ["only-cancel"])],
         level_text="Same session model with drop actions at every suspension point of a reply future: the receive lock "
                    "is never left with a dropped future, a drop never loses a reply in the current code, survivors "
-                   "complete; counter-example theorem for the pinned snapshot (reply lost in the requests-lock window).",
-        level_note="As C05. Drop points are the model's suspension points (queued for rx, handed rx, reading); the "
-                   "transport's recv is assumed cancel-safe (true for the three transports: buffers live in the handle).",
-        rule="as C05, restricted to schedules containing at least one drop",
-        trusted=["RecvHandle::recv is cancel-safe"],
+                   "complete; counter-example theorem for the pinned snapshot (reply lost in the requests-lock window). "
+                   "Below the session: the transport's recv() abandoned in the middle of a message, any number of times, "
+                   "followed by a new call yields exactly what one uninterrupted call yields (recv_cancel_safe, "
+                   "recv_cancel_safe_many, over the framing model of C06), with the counter-example for a receiver whose "
+                   "buffer does not survive the call. The real CLI / TLS / SSH receivers are driven in cancel mode: every "
+                   "recv() future is dropped after 3 ms without a result and re-created while the peer pauses 12 ms "
+                   "between the pieces of a message; the messages delivered must be those of the framing model.",
+        level_note="As C05. Drop points of the session model are its suspension points (queued for rx, handed rx, reading). "
+                   "Cancel-safety of RecvHandle::recv is no longer assumed: it is the theorem above for the model and the "
+                   "cancel-mode correspondence run for the three real transports.",
+        rule="as C05, restricted to schedules containing at least one drop; frame op in cancel mode: model messages = "
+             "delivered messages although reply futures are abandoned mid-message",
+        trusted=["tokio::time::timeout drops the inner future when it fires"],
     ),
     "C20": dict(
         thm=["Bgpfu.Thm.C20"],
